@@ -103,6 +103,7 @@ func c13(p *model.Prog, r *report.Result) {
 	c13Factory(p, r)
 	c13Stap(p, r)
 	c13Guards(p, r)
+	c13List(p, r)
 }
 
 // c13Factory: the unpacker factory terminates the process for a payload type it does not know;
